@@ -169,6 +169,9 @@ func (s *PathState) NonNil(v ssa.Value) bool {
 
 // KnownNonNil: v is a freshly boxed value or the result of a standard error constructor.
 func KnownNonNil(v ssa.Value) bool {
+	if ExtraNonNil != nil && ExtraNonNil(v) {
+		return true
+	}
 	switch x := v.(type) {
 	case *ssa.MakeInterface:
 		return true
@@ -177,6 +180,10 @@ func KnownNonNil(v ssa.Value) bool {
 	}
 	return false
 }
+
+// ExtraNonNil lets the rule layer name further values that are never nil (loads of sentinel error variables, the
+// repository's own error constructors).
+var ExtraNonNil func(v ssa.Value) bool
 
 // nonNilMarker stands in the constant environment for "some non-nil value" (a freshly boxed error selected at a phi).
 var nonNilMarker = ssa.NewConst(constant.MakeString("!nil"), types.Typ[types.String])
@@ -312,6 +319,7 @@ type PathQ struct {
 	NoFold     bool        // disable branch folding on the tracked value
 	NoPrune    bool        // keep facts about dead values (debugging)
 	FullOnly   bool        // skip the light first pass
+	AllAlias   bool        // remember the operand every phi (not only boolean and error phis) took on the path, for Selected
 	light, factDependent bool
 	initial              map[ssa.Value]bool // the query's own Tracked/Marked/Consts keys: identities, never pruned
 	AllConsts  bool        // record the constant selected for every phi (not only branch-relevant ones)
@@ -567,7 +575,7 @@ func (q *PathQ) enter(st *PathState, pred *ssa.BasicBlock) {
 		if b, ok := phi.Type().Underlying().(*types.Basic); ok && b.Kind() == types.Bool {
 			isBool = true
 		}
-		if (isBool || IsErrorType(phi.Type())) && !q.light {
+		if (isBool || IsErrorType(phi.Type()) || q.AllAlias) && !q.light {
 			if _, isC := op.(*ssa.Const); !isC {
 				u.alias = op
 				if ph2, ok := op.(*ssa.Phi); ok {
